@@ -1,4 +1,5 @@
 """C08 Downlink local state equals the fold of what it received."""
+import re
 import collections
 from mirlib import describe_rvalue, AnchorMissing, describe_call, describe_operand, dom_guards, guards, _suffix_match
 from rules.common import guard_mentions, assign_roles_by_type, aggregates, owner_def, panic_sites, where
@@ -85,6 +86,12 @@ def run(ctx):
             r.check(bool(free) and (v not in ("Clear",) or all(not od for c, od in per[v]["mut"])), "client-map/%s/mutation-unconditional" % v, per[v]["mut"][0][0].loc(),
                     "MapMessage::%s mutates the map whatever `dispatch` is (%s)" % (v, ", ".join(c.name for c, _ in per[v]["mut"])),
                     "MapMessage::%s changes the map only when `dispatch` is true: with events_when_not_synced = false (the default) the message is ignored before Synced and on_synced sees a stale map" % v)
+            # ... and whatever the map holds: a message is never skipped because it seems to change nothing (`if map.get(&k) != Some(&v) { .. }`): the
+            # callback chain old -> new must have a step for every message received, as the hosted downlink's has
+            for c, od in per[v]["mut"] + per[v]["cb"]:
+                cmpg = [d for d, l, _ in guards(b, c.block) if re.match(r"^(eq|ne|Eq|Ne)\(", d) and ("map" in d or "value" in d)]
+                r.check(not cmpg, "client-map/%s/%s-not-skipped-by-content" % (v, c.via_name or c.name), c.loc(), "%s does not depend on what the map already holds" % (c.via_name or c.name),
+                        "for MapMessage::%s %s depends on `%s`: a message that repeats the held value (every echo of a local write) is dropped without its callback - the user's view of the sequence of updates skips steps and differs from the hosted downlink's" % (v, c.via_name or c.name, cmpg[0][:70] if cmpg else ""))
             client_cb[v] = sorted({c.via_name for c, _ in per[v]["cb"]})
             for c, od in per[v]["cb"]:
                 r.check(od == ["true"], "client-map/%s/%s-dispatched" % (v, c.via_name), c.loc(), "%s is called only when dispatch is true" % c.via_name,
@@ -311,7 +318,6 @@ def run(ctx):
         # Several handlers take adjacent flags of the same type (events_when_not_synced, terminate_on_unlinked, dispatch ...).
         # At every call of a crate-local function, a named argument whose name is the name of a *different* parameter of the callee
         # is a swapped argument; and all call sites of one callee inside one task body must pass the same expression for a flag.
-        import re
         def last_name(d):
             m_ = re.search(r"([A-Za-z_][A-Za-z0-9_]*)$", d)
             return m_.group(1) if m_ else None
